@@ -1274,11 +1274,13 @@ package machine
 //@   loop 1 invariant done:   forall s string :: visited1[s] ==> !mem(sm.whenTime[s], binding)
 //@   loop 1 invariant rest:   forall s string :: !visited1[s] ==> (mem(sm.whenTime[s], binding) <==> old(mem(sm.whenTime[s], binding)))
 
+// Total for every pair of times (C20: any argument values the signature allows);
+// a tick missing from the shorter second time counts as 0, as in Time.Tick.
+//@ fn TickOr0(t Time, i int) int := i < len(t) ? t[i] : 0
 //@ func (t Time) Equal(strict bool, time2 Time) (r bool)
 //@   props C20
-//@   requires len: strict || len(time2) >= len(t)
-//@   ensures  def: r <==> (!(strict && len(t) != len(time2)) && (forall i int :: 0 <= i && i < len(t) ==> t[i] == time2[i]))
-//@   loop 1 invariant eq: forall j int :: 0 <= j && j < idx1 ==> t[j] == time2[j]
+//@   ensures  def: r <==> (!(strict && len(t) != len(time2)) && (forall i int :: 0 <= i && i < len(t) ==> t[i] == TickOr0(time2, i)))
+//@   loop 1 invariant eq: forall j int :: 0 <= j && j < idx1 ==> t[j] == TickOr0(time2, j)
 
 //@ func statesToMapIndex(states S) (index map[string]int)
 //@   props C06
@@ -1580,3 +1582,16 @@ package machine
 //@   requires pools: forall k string :: has(m.pools, k) ==> m.pools[k] != nil
 //@   assigns *
 //@   ensures nopool: e.IsValid() && !(old(m.poolGlobal + 1 >= m.poolGlobalLimit) && old(m.poolGlobalLimit) > 0) && !(old(has(m.pools, e.Name)) && old(has(m.poolLimits, e.Name))) ==> r
+
+// Time.ActiveStates: the indexes with an odd tick, restricted to idxs when given.
+//@ func (t Time) ActiveStates(idxs []int) (ret []int)
+//@   props C20 C01
+//@   ensures def: forall i int :: mem(ret, i) <==> (0 <= i && i < len(t) && odd(t[i]) && (isnil(idxs) || mem(idxs, i)))
+//@   loop 1 invariant def: forall i int :: mem(ret, i) <==> (0 <= i && i < idx1 && odd(t[i]) && (isnil(idxs) || mem(idxs, i)))
+
+// Event.Export: total for an event without a machine.
+//@ func (e *Event) Export() (r *Event)
+//@   props C20
+//@   requires nn: e != nil
+//@   ensures copy: r != nil && r.Name == e.Name && r.TransitionId == e.TransitionId && r.IsCheck == e.IsCheck
+//@   ensures id: e.machine == nil ==> r.MachineId == e.MachineId
